@@ -100,7 +100,7 @@ struct Damage
   long a = 0, b = 0, c = 0;
 };
 const char* DMG[] = {"cut", "torn-tail", "lost-write", "dup-write", "token-replace", "token-delete", "line-dup", "line-swap", "crlf", "cr-only",
-                     "bom", "byte-flip", "wrong-class", "header-token-replace", "none"};
+                     "bom", "byte-flip", "wrong-class", "header-token-replace", "none", "nul-byte", "long-line"};
 
 struct Token { size_t pos, len; };
 std::vector<Token> tokenize(const std::string& s)
@@ -248,6 +248,26 @@ std::string applyDamage(const std::string& image, const std::vector<std::pair<si
       return o;
     }
     case 12: return otherImage;
+    case 15:
+    {
+      // a NUL byte inside the text (C string functions stop there)
+      std::string o = s;
+      o.insert((size_t)d.a % (o.size() + 1), 1, '\0');
+      return o;
+    }
+    case 16:
+    {
+      // one line made longer than the fixed line buffers (10000 characters) of the ASCII readers
+      if (s.empty()) return s;
+      size_t at = (size_t)d.a % s.size();
+      size_t eol = s.find('\n', at);
+      if (eol == std::string::npos) eol = s.size();
+      std::string filler;
+      while (filler.size() < 12000) filler += (d.b % 2) ? " 1" : "7";
+      std::string o = s;
+      o.insert(eol, filler);
+      return o;
+    }
     default: return s;
   }
 }
@@ -606,7 +626,9 @@ std::vector<Damage> damageList(const std::string& image, size_t tagLen, const st
     else if (u < 0.88) { d.kind = 8; }
     else if (u < 0.90) { d.kind = 9; }
     else if (u < 0.92) { d.kind = 10; }
-    else if (u < 0.97) { d.kind = 11; d.a = r.below(100000); d.b = r.below(8); }
+    else if (u < 0.955) { d.kind = 11; d.a = r.below(100000); d.b = r.below(8); }
+    else if (u < 0.963) { d.kind = 15; d.a = r.below(100000); d.b = r.below(8); }
+    else if (u < 0.97) { d.kind = 16; d.a = r.below(100000); d.b = r.below(8); }
     else { d.kind = 12; d.a = r.below(100000); }
     L.push_back(d);
   }
@@ -911,7 +933,7 @@ struct StoreC09 : Workload
         std::getline(ds, a, ',');
         std::getline(ds, b, ',');
         int kind = 0;
-        for (int k = 0; k < 15; k++) if (nm == DMG[k]) kind = k;
+        for (int k = 0; k < 17; k++) if (nm == DMG[k]) kind = k;
         d.i = {kind, atol(a.c_str()), atol(b.c_str()), 0};
         l.i = {atol(bline.c_str() + mp + 5)};
         q.ops.push_back(d);
@@ -928,6 +950,13 @@ struct StoreC09 : Workload
         bool judgeTimeout = (co.cls == "timeout" && loaderReturned);
         if (judgeTimeout) rr.counters["probe.watchdog-while-querying-survivor"]++;
         if (co.cls == "exit-80") { v.sig = "C09|budget-steps|" + co.lastKind; v.detail = "loader kept reading after end of file (10000 reads at EOF)"; }
+        if (co.cls == "timeout" && !lastB.empty())
+        {
+          // a loader that does not return: the kind of damage is part of the signature (one recorded slowness must not
+          // cover every other way of hanging the same loader)
+          size_t dp = lastB.find("dmg=");
+          if (dp != std::string::npos) { size_t e = lastB.find(',', dp); v.sig += "|dmg=" + lastB.substr(dp + 4, e == std::string::npos ? std::string::npos : e - dp - 4); }
+        }
         if (!single && !lastB.empty()) v.replay = derive(lastB);
         if (!judgeTimeout) rr.viol.push_back(v);
         if (single || lastIdx < 0 || total < 0) break;
